@@ -118,37 +118,52 @@ func checkC18(c *Ctx) {
 	if len(sects) < 4 {
 		c.undecided("R1", "instance-floor", nil, "only %d functions store the claim or the state; 5 on the reference tree", len(sects))
 	}
-	// Status under one read-lock hold
+	// Status under one read-lock hold: the loads that feed IsLeader and State are made under the
+	// election mutex (directly or in helpers called under it), with no unlock in Status between them
 	if st := m.method("Status"); st != nil {
-		var cl, sl ssa.Instruction
-		eachInstr(st, func(in ssa.Instruction) {
-			if call, ok := in.(*ssa.Call); ok {
-				if m.isAtomicLoadOf(call, m.Claim) {
-					cl = in
-				}
-				if m.isAtomicLoadOf(call, m.State) {
-					sl = in
-				}
+		for _, b := range liveBlocks(st) {
+			ret, ok := b.Instrs[len(b.Instrs)-1].(*ssa.Return)
+			if !ok || b == st.Recover {
+				continue
 			}
-		})
-		okS := cl != nil && sl != nil && la.MustBefore(cl).hasLock(m.path(m.Mu)) && la.MustBefore(sl).hasLock(m.path(m.Mu))
-		unlockBetween := false
-		if okS {
+			v := returnValue(ret, 0)
+			cl := m.OriginLoadsField(v, "IsLeader")
+			sl := m.OriginLoadsField(v, "State")
+			locked := func(ls []*ssa.Call) bool {
+				if len(ls) == 0 {
+					return false
+				}
+				for _, l := range ls {
+					if !la.MustBefore(l).hasLock(m.path(m.Mu)) {
+						return false
+					}
+				}
+				return true
+			}
+			okS := locked(cl) && locked(sl) && m.FieldOrigins(v, "IsLeader")["field:"+m.Claim] && m.FieldOrigins(v, "State")["field:"+m.State]
+			// exactly one acquisition of the mutex in Status and no release before the snapshot is complete
+			nAcq, early := 0, false
 			eachInstr(st, func(in ssa.Instruction) {
 				if call, ok := in.(*ssa.Call); ok {
-					if op, ok := m.lockOpOf(&call.Call); ok && op.ID == m.path(m.Mu) && (op.Kind == "RUnlock" || op.Kind == "Unlock") {
-						a, b := sl, cl
-						if dominatesInstr(cl, sl) {
-							a, b = cl, sl
-						}
-						if dominatesInstr(a, in) && dominatesInstr(in, b) {
-							unlockBetween = true
+					if op, ok := m.lockOpOf(&call.Call); ok && op.ID == m.path(m.Mu) {
+						switch op.Kind {
+						case "RLock", "Lock":
+							nAcq++
+						case "RUnlock", "Unlock":
+							if !dominatesInstr(ret, in) {
+								// an explicit unlock somewhere before the return: the loads must all precede it
+								for _, l := range append(append([]*ssa.Call{}, cl...), sl...) {
+									if l.Parent() == st && !dominatesInstr(l, in) {
+										early = true
+									}
+								}
+							}
 						}
 					}
 				}
 			})
+			c.check(okS && nAcq == 1 && !early, "R1", "Status() reads claim and state in one critical section", ret, "loads feeding IsLeader/State under %s: %v; acquisitions of the mutex in Status: %d; released before the snapshot is complete: %v", m.path(m.Mu), okS, nAcq, early)
 		}
-		c.check(okS && !unlockBetween, "R1", "Status() reads claim and state in one critical section", firstInstr(st), "both loads under %s: %v; unlock between them: %v", m.path(m.Mu), okS, unlockBetween)
 	}
 
 	// ---- R2 metrics ---------------------------------------------------------------------
